@@ -17,6 +17,7 @@ def opsElement (op : String) (args : List String) : Option String :=
   match op, hexArgs args with
   | "el.parse", some [e] => some (renderSkip (fun x => renderElem x ++ " " ++ hexOrDash (compose unres x)) (parse e))
   | "el.split", some [v] => some (renderList (split v))
+  | "el.list", some vs => some (renderList (split (join vs)))
   | "el.compose", some (v :: kvs) => (pairUp kvs).map fun ps => hexOrDash (compose unres { value := v, params := ps })
   | "acc.elements", some [kind, v] =>
     some (renderSkip (fun l => if l.isEmpty then "()" else " ".intercalate (l.map fun (q, t) => s!"{q}:{hexOrDash t}"))
